@@ -38,7 +38,7 @@ def scope(tier, seed):
          'cross-ordering histories': 'for every ordered pair (o1,o2) of orderings: a 29-function menu, '
                                      'all pairs x 3 operators + negation, under o1, o2, o1 in one process'}
     if tier == 'thorough':
-        d['4 variables'] = ('all 65536 functions x orderings {abcd, dcba, seed-chosen} x 20-function '
+        d['4 variables'] = ('all 65536 functions x orderings {abcd, one seed-chosen} x 10-function '
                             'partner menu x 3 operators, negation, restrictions, ROBDD size')
     return d
 
@@ -55,7 +55,7 @@ def plan(tier, seed):
     sh.append(['dynnames'])
     if tier == 'thorough':
         perms = list(itertools.permutations(range(4)))
-        ois = sorted(set([0, 23, seed % 24, (seed * 7 + 5) % 24]))
+        ois = sorted(set([0, (seed * 7 + 5) % 23 + 1]))
         for oi in ois:
             for lo, hi in chunks(65536, 1024):
                 sh.append(['f4', oi, lo, hi])
@@ -146,7 +146,7 @@ def partners4(tt):
     es = ['a', 'b', 'c', 'd', '~a', '~d', 'a & b', 'a | d', 'c & ~d', '(a & ~b) | (~a & b)',
           '(c & ~d) | (~c & d)', '(a & b) | (c & d)', '(a | b) & (c | d)',
           '(a & b) | (a & c) | (b & c)', '0', '1', '(a & d) | (~a & ~d)', 'b | c | d',
-          '~(a & b & c & d)', '(b & ~c) | (~b & c & d)']
+          '~(a & b & c & d)', '(b & ~c) | (~b & c & d)'][::2]
     out = []
     for e in es:
         env_t = tuple(bool(eval(e.replace('~', ' not ').replace('&', ' and ').replace('|', ' or '),
